@@ -31,6 +31,11 @@ class SectionOutput(Output):
         return self._lines
 
     def clear(self, lines=None):  # type: (Optional[int]) -> None
+        if not self._may_write(None):
+            # Nothing can be erased on the screen of a quiet section:
+            # its content must stay what the screen shows
+            return
+
         if (
             not self._content
             or not self.supports_ansi()
